@@ -319,36 +319,55 @@ Definition gnutar_long (tartype : Z) (linkname s : list Z) : Z * list Z :=
   if ret <? ST_WARN then (ret, [])
   else (ret, h ++ s ++ [0] ++ zeros (Z.to_nat (pad_to 512 len))).
 
-Definition gnutar_entry (full : bool) (e0 : entry) : ewrite :=
+Definition gnutar_typeflag (e : entry) : option Z :=
+  let ft := filetype e in
+  if is_some (e_hard e) then Some 49
+  else if ft =? IFREG then Some 48
+  else if ft =? IFLNK then Some 50
+  else if ft =? IFCHR then Some 51
+  else if ft =? IFBLK then Some 52
+  else if ft =? IFDIR then Some 53
+  else if ft =? IFIFO then Some 54
+  else None.
+
+(* archive_write_gnutar_header.  header_first = false: the 'K'/'L' long-name records go out before the entry's type
+   is looked at and its header is formatted (a refusal after that leaves them in the archive);
+   header_first = true: type and header first, nothing is written for a refused entry. *)
+Definition gnutar_entry_gen (header_first full : bool) (e0 : entry) : ewrite :=
   if negb (is_some (e_path e0)) then mkEw ST_FAILED [] 0 [] 0 else
   let e := dir_slash (no_body e0) in
   let name := ob (e_path e) in
   let linkname := linkname_of e in
   let uname := ob (e_uname e) in
   let gname := ob (e_gname e) in
-  let '(rk, outk) := if (GNUTAR_linkname_size <? length linkname)%nat then gnutar_long 75 linkname linkname else (0, []) in
-  if rk <? ST_WARN then mkEw rk outk 0 [] 0
+  let klong := if (GNUTAR_linkname_size <? length linkname)%nat then gnutar_long 75 linkname linkname else (0, []) in
+  let llong := if (GNUTAR_name_size <? length name)%nat then gnutar_long 76 linkname name else (0, []) in
+  let body ret h pre :=
+      if negb full then mkEw ret (pre ++ h) 0 [] 0
+      else let '(n, out) := tar_body (size_of e) (e_body e) in mkEw ret (pre ++ h) n out 0 in
+  if header_first then
+    match gnutar_typeflag e with
+    | None => mkEw ST_FAILED [] 0 [] 0
+    | Some t =>
+        let '(ret, h) := gnutar_header name linkname uname gname e t in
+        if ret <? ST_WARN then mkEw ret [] 0 [] 0
+        else if fst klong <? ST_WARN then mkEw (fst klong) (snd klong) 0 [] 0
+        else if fst llong <? ST_WARN then mkEw (fst llong) (snd klong ++ snd llong) 0 [] 0
+        else body ret h (snd klong ++ snd llong)
+    end
   else
-  let '(rl, outl) := if (GNUTAR_name_size <? length name)%nat then gnutar_long 76 linkname name else (0, []) in
-  if rl <? ST_WARN then mkEw rl (outk ++ outl) 0 [] 0
-  else
-  let ft := filetype e in
-  let tf := if is_some (e_hard e) then Some 49
-            else if ft =? IFREG then Some 48
-            else if ft =? IFLNK then Some 50
-            else if ft =? IFCHR then Some 51
-            else if ft =? IFBLK then Some 52
-            else if ft =? IFDIR then Some 53
-            else if ft =? IFIFO then Some 54
-            else None in
-  match tf with
-  | None => mkEw ST_FAILED (outk ++ outl) 0 [] 0
-  | Some t =>
-      let '(ret, h) := gnutar_header name linkname uname gname e t in
-      if ret <? ST_WARN then mkEw ret (outk ++ outl) 0 [] 0
-      else if negb full then mkEw ret (outk ++ outl ++ h) 0 [] 0
-      else let '(n, out) := tar_body (size_of e) (e_body e) in mkEw ret (outk ++ outl ++ h) n out 0
-  end.
+    if fst klong <? ST_WARN then mkEw (fst klong) (snd klong) 0 [] 0
+    else if fst llong <? ST_WARN then mkEw (fst llong) (snd klong ++ snd llong) 0 [] 0
+    else
+    match gnutar_typeflag e with
+    | None => mkEw ST_FAILED (snd klong ++ snd llong) 0 [] 0
+    | Some t =>
+        let '(ret, h) := gnutar_header name linkname uname gname e t in
+        if ret <? ST_WARN then mkEw ret (snd klong ++ snd llong) 0 [] 0
+        else body ret h (snd klong ++ snd llong)
+    end.
+
+Definition gnutar_entry (full : bool) (e0 : entry) : ewrite := gnutar_entry_gen GNUTAR_header_first full e0.
 
 Definition tar_trailer : list Z := zeros 1024.
 
